@@ -3,7 +3,7 @@
    path builders of levyprocess.py / markovchain.py / couplingmarkovchain.py and of both copies of
    build_finer_grid), tied to the source by the correspondence through process.simulate_one_path(). *)
 From Coq Require Import ZArith QArith List.
-From RV Require Import Base.QB Model.Paths Proofs.C15_Paths Proofs.C15_Finer.
+From RV Require Import Base.QB Model.Paths Proofs.C15_Paths Proofs.C15_Finer Proofs.C15_Link.
 Import ListNotations.
 Open Scope Q_scope.
 
@@ -34,8 +34,14 @@ Theorem C15_jump_times : forall ivs incs, valid_ivs 0 ivs -> 0 < end_of 0 ivs ->
       /\ (forall k, (k < length vals)%nat -> nth (S k) path 0 == qsum (firstn (S k) (concat incs)))
       /\ last path 0 = last vals 0
       /\ length path = S (S (length (concat incs))))
-  /\ (forall inc, mc_jump_values [inc] = levy_jump_values [inc]).
-Proof. intros. split; [|split]. apply jump_times_path; assumption. apply jump_values. apply chain_single_interval. Qed.
+  /\ (forall inc, mc_jump_values [inc] = levy_jump_values [inc])
+  (* times and values belong together only when every interval has as many increments as offsets: then equally long *)
+  /\ (Forall2 (fun iv inc => length (iv_offs iv) = length inc) ivs incs ->
+      length (assemble_times (end_of 0 ivs) (times_of_ivs ivs)) = length (assemble_values (levy_jump_values incs))).
+Proof.
+  intros. split; [|split; [|split]]. apply jump_times_path; assumption. apply jump_values. apply chain_single_interval.
+  intro. apply jump_path_lengths; assumption.
+Qed.
 
 (* F-C15-4: with two product intervals the Markov-chain jump-time simulators restart at the origin *)
 Theorem C15_chain_restart_refuted : exists incs, mc_jump_values incs <> levy_jump_values incs
@@ -62,6 +68,25 @@ Proof.
   - apply (Refines_points zero l r HR). reflexivity.
   - apply (Refines_total zero l r HR).
 Qed.
+
+(* what the code RETURNS: _build_finer_grid's arrays are gaps/values of `refine` (times = cumsum of the gaps); for 0 < eps below the
+   horizon handed to the factory and enough passes, the path of SimulationMaximumStep is 0, the refined times, the maturity, with
+   EVERY step except the last one <= eps, and the returned (gap, value) arrays refine the input in the sense of Refines *)
+Theorem C15_cap_inner_steps : forall N eps T times vals, 0 < eps -> eps < T -> times <> [] ->
+  gaps_le (inject_Z (Z.of_nat (S N)) * eps) (combine (gaps times) vals) ->
+  let tv := build_finer_grid 0 N eps T times vals in
+  fst (capped_path N eps T times vals) = assemble_times T (fst tv)
+  /\ snd (capped_path N eps T times vals) = assemble_values (snd tv)
+  /\ Forall (fun g => g <= eps) (gaps (fst tv))
+  /\ exists r, Refines 0 (combine (gaps times) vals) r /\ Forall2 Qeq (gaps (fst tv)) (map fst r) /\ snd tv = map snd r.
+Proof. exact capped_path_inner_steps. Qed.
+
+Theorem C15_finer_grid_returns : forall (V : Type) (zero : V) fuel eps times (vals : list V),
+  let r := refine zero fuel eps (combine (gaps times) vals) in
+  finer_grid zero fuel eps times vals = (cumsum (map fst r), map snd r)
+  /\ Forall2 Qeq (gaps (fst (finer_grid zero fuel eps times vals))) (map fst r)
+  /\ snd (finer_grid zero fuel eps times vals) = map snd r.
+Proof. intros V zero. exact (finer_grid_refine zero). Qed.
 
 (* fine and coarse components are refined at the same positions: projecting the coupled refinement gives the
    refinement of each component, with the same gaps (hence the same times) *)
@@ -93,5 +118,7 @@ Print Assumptions C15_fixed_dates.
 Print Assumptions C15_jump_times.
 Print Assumptions C15_chain_restart_refuted.
 Print Assumptions C15_finer_grid.
+Print Assumptions C15_cap_inner_steps.
+Print Assumptions C15_finer_grid_returns.
 Print Assumptions C15_finer_grid_aligned.
 Print Assumptions C15_cap_whole_path_refuted.
